@@ -267,7 +267,9 @@ def SlashCodeOk : Prop :=
   slashWhenConfirmMissing = true ∧ oracleSetWindowCmp = .gt ∧ bridgeCallWindowCmp = .le ∧
   batchRangeHalfOpen = true ∧ slashingGuardCmp = .le ∧
   -- the model matches confirms with oracles by EXTERNAL address (`confExts`, `shouldSlash`): that is what the code must do
-  slashConfirmFill = .external ∧ slashConfirmLookup = .external
+  slashConfirmFill = .external ∧ slashConfirmLookup = .external ∧
+  -- every loop walks the snapshot of online oracles taken at the start of `slashing` (not, e.g., the members of the set)
+  oracleSetLoopDomain = .onlineSnapshot ∧ batchLoopDomain = .onlineSnapshot ∧ bridgeCallLoopDomain = .onlineSnapshot
 
 instance : Decidable SlashCodeOk := by unfold SlashCodeOk; infer_instance
 
@@ -278,8 +280,9 @@ theorem refreshPower_rel (s0 t : State) (h : Nat) (hr : SlashRel s0 h t) : Slash
 /-- `slashing` never panics (given the code facts) and only does what `SlashRel` allows -/
 theorem slashing_rel (hcode : SlashCodeOk) (s : State) (h : Nat) :
     ∃ s', slashing s h = .ok s' ∧ SlashRel s h s' := by
-  obtain ⟨ha1, ha2, ha3, hs1, hs2, hs3, hm, hw1, hw3, _, _⟩ := hcode
+  obtain ⟨ha1, ha2, ha3, hs1, hs2, hs3, hm, hw1, hw3, _, _, _, _, hd1, hd2, hd3⟩ := hcode
   unfold slashing
+  simp only [oracleSetSlashingBy, batchSlashingBy, bridgeCallSlashingBy, hd1, hd2, hd3]
   by_cases hwin : h ≤ s.p.window
   · simp only [hwin, ↓reduceIte]; exact ⟨s, rfl, SlashRel.refl s h⟩
   · simp only [hwin, ↓reduceIte]
